@@ -30,6 +30,8 @@ type JobSpec struct {
 	KFOpen   []string       `json:"kf_open"`
 	Must     []string       `json:"must_reach_funcs"` // substrings of function names that must be executed
 	GosymSrc string         `json:"gosym_src"`        // path of the gosym API package source
+	SecondMax int           `json:"second_max"`       // re-decide up to this many assertion queries with another solver
+	Seed      int           `json:"seed"`
 	// Overrides: ssa function name -> "import/path.Func" of a replacement with the same parameters
 	// (receiver first).  Used for environment seams that are concrete types (DESIGN 3.2).
 	Overrides map[string]string `json:"overrides,omitempty"`
@@ -63,6 +65,7 @@ type JobResult struct {
 	Samples      []PathSample   `json:"samples,omitempty"`
 	Funcs        []FuncInfo     `json:"functions_encoded"`
 	Stubs        map[string]int `json:"stubs_hit,omitempty"`
+	Second       map[string]any `json:"second_solver,omitempty"`
 	HarnessOverlay map[string]string `json:"-"`
 }
 
@@ -210,6 +213,17 @@ func RunJob(spec JobSpec) (res JobResult) {
 	res.Violations = e.Violations
 	res.Samples = e.Samples
 	res.Stubs = e.Stubs
+	if res.Infra == "" && spec.SecondMax > 0 {
+		other := map[string]string{"cvc5int": "z3new", "cvc5": "z3new", "z3": "cvc5", "z3new": "cvc5"}[e.z.kind]
+		if other == "" {
+			other = "cvc5"
+		}
+		checked, agreed, noOp, dis := e.z.secondOpinion(other, spec.SecondMax, spec.Seed, 20*time.Second)
+		res.Second = map[string]any{"solver": other, "recorded_assertion_queries": len(e.z.finalQ), "rechecked": checked, "agreed": agreed, "no_second_opinion": noOp, "disagreements": dis}
+		if len(dis) > 0 {
+			res.Infra = "solver disagreement: " + strings.Join(dis, "; ")
+		}
+	}
 	res.Funcs = e.FuncsEncoded(prog, "zz_verif_")
 	sort.Slice(res.Funcs, func(i, j int) bool { return res.Funcs[i].Name < res.Funcs[j].Name })
 	if res.Infra == "" {
